@@ -1,6 +1,7 @@
 package linkedhashmap
 
 import (
+	"github.com/emirpasic/gods/v2/containers"
 	"github.com/emirpasic/gods/v2/lists/doublylinkedlist"
 	"github.com/emirpasic/gods/v2/maps"
 	v "github.com/emirpasic/gods/v2/zzvsup"
@@ -32,4 +33,10 @@ func VHMapStep() {
 	keys, vals := maps.VPairs(false)
 	m := VGMapOf(keys, vals)
 	maps.VMapStep(m, keys, vals, maps.VKind{Ordered: true, Inv: func() { VInv(m) }})
+}
+
+func VHIter() {
+	keys, vals := maps.VPairs(false)
+	m := VGMapOf(keys, vals)
+	containers.VKeyIterStep(func() containers.IteratorWithKey[int, int] { return m.Iterator() }, keys, vals, m)
 }
